@@ -140,6 +140,27 @@ def check_parser(P, R):
             elif isinstance(a, ast.Call) and dotted(a.func) == 'int' and isinstance(b, ast.Call) and dotted(b.func) == 'min':
                 inner = [src(x).replace(' ', '') for x in b.args]
                 forms['closed'] = maxlen in inner and f'int({ename})+1' in inner
+    # a pre-check of the position texts must accept what the list grammar allows around a range-spec: optional white space next to the comma
+    # (`bytes=0-5 ,7-9`) ends up inside the text, int() ignores it, a bare isdigit() / pattern test does not
+    for x in walk_shallow(f.node):
+        if isinstance(x, ast.Call) and call_attr(x) in ('isdigit', 'isdecimal', 'isnumeric', 'fullmatch', 'match'):
+            recv = x.func.value if call_attr(x) in ('isdigit', 'isdecimal', 'isnumeric') else (x.args[-1] if x.args else None)
+            if recv is None:
+                continue
+            base = recv
+            stripped = False
+            while isinstance(base, ast.Call) and isinstance(base.func, ast.Attribute):
+                stripped = stripped or base.func.attr in ('strip', 'lstrip', 'rstrip')
+                base = base.func.value
+            about = isinstance(base, ast.Name) and (base.id in (sname, ename) or any(
+                isinstance(c_, (ast.GeneratorExp, ast.ListComp)) and any(isinstance(g_.target, ast.Name) and g_.target.id == base.id and
+                                                                           {sname, ename} & names_loaded(g_.iter) for g_ in c_.generators)
+                for c_ in ast.walk(f.node)))
+            if about:
+                R.ob('C17.b', f, x, stripped, text=f'`{short(x)}`: a pre-check of a byte position tolerates the white space int() tolerates', detail='' if stripped else
+                     f'`{short(x)}` refuses a position text that int() converts: in `bytes=0-5 ,7-9` the first range-spec is `0-5 ` (optional white space before the comma, allowed '
+                     f'by the list grammar), its last position `5 ` is not all digits, and the request is answered 416 instead of 206 for bytes 0-5',
+                     why='the first requested range clipped to the file as RFC 7233 defines', key_extra='pos-precheck')
     # ... each under the spelling it belongs to: what is known about the two halves of the spec where a form is computed must not contradict it
     def _truth(atoms, name):
         for (e_, holds_, _t) in atoms:
@@ -558,6 +579,11 @@ def check_static_file(P, R):
     sd_ = [c_ for c_ in walk_shallow(cast_.node) if isinstance(c_, ast.Call) and call_attr(c_) == 'setdefault' and c_.args and is_const(c_.args[0], 'Content-Length')]
     R.ob('C17.e', cast_, sd_[0] if sd_ else cast_.node, bool(sd_), text='_cast only fills in a missing Content-Length (setdefault)', detail='' if sd_ else
          '_cast does not default the Content-Length', nontrivial=False)
+    # the verb static_file decides by is the verb of this request: a memo of it (in the environ) survives a change of REQUEST_METHOD and the re-use of the environ
+    from . import c02 as _c02
+    _c02.check_plain_property(P, R, 'C17.e', 'ombott.request_pkg.props_mixin:PropsMixin.method', 'request.method',
+                              'static_file picks the body by the remembered verb while the framework strips HEAD bodies by the live one: after HEAD-then-GET on one environ the '
+                              'file is announced with its length and delivered empty, after GET-then-HEAD the file is opened for a HEAD', 'HEAD yields the same headers with no body, GET the body')
     # HEAD -> empty body
     heads = []
     for n in walk_shallow(f.node):
